@@ -167,6 +167,10 @@ def _worker_call(args):
         mod = importlib.import_module(modname)
         res = Result()
         getattr(mod, funcname)(task, res)
+        for f in res.fails:
+            # fallback replay unit: the whole worker task (a failure that depends on what the same task did before - something
+            # the library remembered - does not show when the single case is re-run alone)
+            f["task"] = [modname, funcname, jsonable(task)]
         return res.pack()
     except BaseException as e:  # harness failure inside a worker: surface loudly
         return dict(harness_error=f"{type(e).__name__}: {e}\n{traceback.format_exc()}", task=repr(task)[:300])
@@ -281,6 +285,16 @@ def run_check(prop: str, tier: str, seed: int) -> int:
                 p = subprocess.run([sys.executable, "-m", "mzcheck", "replay", str(path)], cwd=str(VERIF),
                                    capture_output=True, text=True, env=dict(os.environ))
                 outcomes.append(p.returncode)
+            if outcomes != [1, 1] and f.get("task"):
+                # the single case passes alone: re-run the whole task that found it, in a fresh process, twice
+                path.write_text(json.dumps(dict(property=prop, key=f["key"], what=f["what"], replay=f["replay"], replay_mode="task", task=f["task"]), indent=1))
+                outcomes = []
+                for _ in range(2):
+                    p = subprocess.run([sys.executable, "-m", "mzcheck", "replay", str(path)], cwd=str(VERIF),
+                                       capture_output=True, text=True, env=dict(os.environ))
+                    outcomes.append(p.returncode)
+                if outcomes == [1, 1]:
+                    f["what"] = "(shows only after the earlier cases of the same task ran in the same process; replay re-runs the task) " + f["what"]
             if outcomes != [1, 1]:
                 # not believed and not reported as a violation; the run ends as a harness error unless another violation of this
                 # run does reproduce (a confirmed violation stands on its own replay)
@@ -342,7 +356,15 @@ def run_replay(path: str) -> int:
     d = json.loads(Path(path).read_text())
     mod = check_module(d["property"])
     res = Result()
-    mod.replay(d["replay"], res)
+    if d.get("replay_mode") == "task":
+        modname, funcname, task = d["task"]
+        sub = Result()
+        getattr(importlib.import_module(modname), funcname)(task, sub)
+        for f in sub.fails:
+            if f["key"] == d["key"]:
+                res.fail(f["key"], f["what"], f["replay"])
+    else:
+        mod.replay(d["replay"], res)
     if res.fails:
         for f in res.fails:
             print(f"REPLAY-FAIL property={d['property']} key={f['key']}\n  {f['what'][:1500]}")
